@@ -5,6 +5,7 @@ import shutil
 import subprocess
 import sys
 import tempfile
+import time
 from pathlib import Path
 
 VERIF = Path(__file__).resolve().parent.parent
@@ -480,10 +481,14 @@ def determinism_exploration(runs, seed):
         if hb.exists():
             subprocess.run([str(hb), "dump_ext", "--seed", str(seed), "--n", str(max(20, runs)), "--out", str(work / "gen")], check=False, timeout=120)
             gen_dirs = sorted((work / "gen").glob("ext*"))
-        for k in range(runs):
-            kind = rng.randrange(6)
+        witness_dirs = sorted(d for d in (VERIF / "corpus" / "determinism").glob("*") if d.is_dir())
+        for k in range(-len(witness_dirs), runs):
+            kind = rng.randrange(6) if k >= 0 else 6
             outs = []
-            if kind == 0:
+            if kind == 6:
+                # fixed witnesses (hash-order dependence needs several independent processes): six runs each
+                cmd = ["verify", "--equivalence", "external", "--no-proof-search", "--no-timing", "--save-problems", "OUT", str(witness_dirs[k + len(witness_dirs)])]
+            elif kind == 0:
                 f = work / "in.lp"; f.write_text(rng.choice(texts["lp"]))
                 cmd = ["translate", "--with", rng.choice(["tau-star", "mu", "natural"]), str(f)]
             elif kind == 1:
@@ -512,7 +517,7 @@ def determinism_exploration(runs, seed):
                 cmd = ["verify", "--equivalence", "strong", "--no-proof-search", "--no-timing", "--save-problems", "OUT",
                        "--decomposition", rng.choice(["independent", "sequential"])] + [str(x) for x in lps]
             kinds[kind] = kinds.get(kind, 0) + 1
-            for rep in range(3):
+            for rep in range(6 if kind == 6 else 3):
                 out = work / f"out{rep}"
                 shutil.rmtree(out, ignore_errors=True)
                 out.mkdir()
@@ -540,3 +545,40 @@ def determinism_exploration(runs, seed):
         shutil.rmtree(work, ignore_errors=True)
     return {"evaluations": runs, "distinct_nontrivial": ok, "samples": samples, "process_triples_identical": ok,
             "command_kinds": {str(k): v for k, v in sorted(kinds.items())}}, failures
+
+def long_fixpoint_check():
+    """A formula whose fixpoint simplification needs many passes (one link of a chain per pass) and noticeable time:
+    the CLI must print the hand-computed normal form p(1, .., n), and simplifying that again must not change it."""
+    n = 220
+    items = ["X1 = 1"] + [f"X{i - 1} = {i - 1} -> X{i} = {i}" for i in range(2, n + 1)] + ["p(" + ", ".join(f"X{i}" for i in range(1, n + 1)) + ")"]
+
+    def conj(lo, hi):
+        if lo == hi:
+            return items[lo]
+        mid = (lo + hi) // 2
+        return "(" + conj(lo, mid) + ") and (" + conj(mid + 1, hi) + ")"
+    text = "exists " + " ".join(f"X{i}" for i in range(1, n + 1)) + " (" + conj(0, n) + ").\n"
+    expected = "p(" + ", ".join(str(i) for i in range(1, n + 1)) + ").\n"
+    work = Path(tempfile.mkdtemp(prefix="c18long_", dir=str(VERIF / "work")))
+    failures = []
+    try:
+        f = work / "in.spec"
+        f.write_text(text)
+        t0 = time.time()
+        p1 = subprocess.run([str(ANTHEM), "simplify", "--portfolio", "classic", "--strategy", "fixpoint", str(f)], stdout=subprocess.PIPE, stderr=subprocess.PIPE,
+                            timeout=600, env=dict(os.environ, RUST_BACKTRACE="0"))
+        secs = time.time() - t0
+        out1 = p1.stdout.decode("utf-8", "replace")
+        if out1 != expected:
+            failures.append({"input": f"chain({n}): exists X1..X{n} (X1 = 1 and (X1 = 1 -> X2 = 2) and ... and p(X1, .., X{n})), balanced conjunction",
+                             "expected": expected[:120], "cli_output": out1[:400], "note": "the fixpoint simplification did not reach the normal form"})
+        else:
+            g = work / "out1.spec"
+            g.write_text(out1)
+            p2 = subprocess.run([str(ANTHEM), "simplify", "--portfolio", "classic", "--strategy", "fixpoint", str(g)], stdout=subprocess.PIPE, stderr=subprocess.PIPE,
+                                timeout=600, env=dict(os.environ, RUST_BACKTRACE="0"))
+            if p2.stdout.decode("utf-8", "replace") != out1:
+                failures.append({"input": f"chain({n})", "note": "the printed result is not a fixpoint: simplifying it again changes it", "cli_output": p2.stdout.decode("utf-8", "replace")[:400]})
+    finally:
+        shutil.rmtree(work, ignore_errors=True)
+    return {"long_fixpoint_chain": n, "long_fixpoint_seconds": round(secs, 2)}, failures
